@@ -78,6 +78,8 @@ def dkgStep1 (s : DkgSt) (f : List String) : DkgSt × String :=
     match i.toNat?, fromHex k, fromHex sg with
     | some i, some k, some sg =>
       let p : Participant := { addr, key := k, sig := sg, selfSigOK := ok == "1", keyOK := kok == "1", scheme := sch }
+      -- a well-formed self-signature has the length the model's table gives for the scheme (kyber's point encoding)
+      if ok == "1" && sg.length != schemeSigLen sch then (s, "bad-siglen-table") else
       ({ s with parts := (i, p) :: s.parts.filter (·.1 != i) }, "ok")
     | _, _, _ => (s, "bad-op")
   | ["reset", bid, me] =>
